@@ -9,7 +9,7 @@ from harness.core import Case, coq_bool, coq_list, coq_str
 from harness.kernels import acetext
 
 IMPORTS = acetext.IMPORTS + ["model.AclText", "model.Shading", "model.SplitPorts", "model.Platform", "model.Ops",
-                             "run.RunOps"]
+                             "proofs.HistoryProofs", "run.RunOps"]
 TARGETS = ["run/RunOps.vo"]
 PL = {"ios": "Ios", "nxos": "Nxos"}
 ALL_OPS = ["platform", "port_nr", "protocol_nr", "type_ext", "resequence", "group", "ungroup", "sort", "reverse",
@@ -76,7 +76,8 @@ def observe(ca, a, labels):
                          [[labels.name(x), note(x)] for x in it.items]])
         else:
             tops.append([labels.name(it), note(it)])
-    return [lines, [a.platform, bool(a.port_nr), bool(a.protocol_nr), a.group_by], [labels.name(a), note(a)], tops]
+    # the leading True stands for the step certificate the model computes (HistoryProofs.step_cert)
+    return [True, lines, [a.platform, bool(a.port_nr), bool(a.protocol_nr), a.group_by], [labels.name(a), note(a)], tops]
 
 
 def apply_op(ca, a, op):
